@@ -20,7 +20,7 @@
      deleted nor registered again and — when x (exclusive) — nobody registered v again. *)
 From Coq Require Import List ZArith Bool Permutation Lia.
 From GZgen Require Import C13Consts.
-From GZ Require Import C13.Model C13.Proofs C13.ProofsB C13.ProofsC C13.ProofsD C13.ProofsE C13.ProofsF C13.ProofsG C13.ProofsH C13.ProofsI C13.GenProofs.
+From GZ Require Import C13.Model C13.Proofs C13.ProofsB C13.ProofsC C13.ProofsD C13.ProofsE C13.ProofsF C13.ProofsG C13.ProofsH C13.ProofsI C13.ProofsJ C13.GenProofs.
 Import ListNotations.
 Open Scope Z_scope.
 
@@ -172,6 +172,42 @@ Print Assumptions join_overlapping_registrations_is_complete.
 
 Example ex_join_overlap :
   c_view (c_run (new_container false) (jcalls_attached [JReplay 1 10; JEvent (BPut 3 30); JReplay 2 20])) = [20; 30; 10].
+Proof. reflexivity. Qed.
+
+(* Generations of a watcher.  A key whose last subscriber closes loses its watchValue; monitored
+   again it gets a NEW one (load + watch), while the watch goroutine of the old generation may
+   still be in the middle of a watch response ([gens]: the values of every watchValue ever
+   created for the key; [apply_bound g evs]: handleWatchEvents of generation g's goroutine, bound
+   to the watchValue it looked up once per response).  Whatever work older generations still do,
+   in any order, they never write the values of another generation ... *)
+Theorem old_generation_never_writes_new : forall (work : list (nat * list bev)) gs g' d,
+  (forall g evs, In (g, evs) work -> g <> g') ->
+  nth g' (fold_left (fun gs w => apply_bound (fst w) (snd w) gs) work gs) d = nth g' gs d.
+Proof. exact old_generations_never_write_new. Qed.
+Print Assumptions old_generation_never_writes_new.
+
+(* ... so the view of the newest generation's subscribers is decided by what ITS machinery
+   obtained from etcd (view_equals_etcd_after_any_consistent_delivery), over histories with
+   close-and-monitor-again during held multi-event responses. *)
+Theorem new_generation_view_is_etcd : forall h ds xs c (work : list (nat * list bev)) (gs : gens) g',
+  (forall g evs, In (g, evs) work -> g <> g') ->
+  nth g' gs [] = rvals (run (init xs) (map ev_of_g ds)) ->
+  consistent h 0 0 ds ->
+  wf_run (init xs) (map ev_of_g ds) ->
+  In c (conts (run (init xs) (map ev_of_g ds))) ->
+  fst (final_pos_g 0 0 ds) = snd (final_pos_g 0 0 ds) ->
+  let now := etcd_state h (snd (final_pos_g 0 0 ds)) in
+  (forall k, mget k (nth g' (fold_left (fun gs w => apply_bound (fst w) (snd w) gs) work gs) []) = mget k now) /\
+  NoDup (c_values c) /\
+  (cexcl c = false -> forall v, In v (c_values c) <-> registered now v) /\
+  (cexcl c = true -> forall v, In v (c_values c) -> registered now v).
+Proof. exact new_generation_view. Qed.
+Print Assumptions new_generation_view_is_etcd.
+
+(* generation 0 holds {1 -> 10}; generation 1 was created after key 2 came and went; the old
+   goroutine still applies PUT 2 20 of its response: generation 1 is untouched *)
+Example ex_generations :
+  apply_bound 0 [BPut 2 20] [[(1, 10)]; [(1, 10)]] = [[(2, 20); (1, 10)]; [(1, 10)]].
 Proof. reflexivity. Qed.
 
 (* Notifications.  Each event makes exactly one round of listener calls per UpdateListener
